@@ -179,6 +179,29 @@ TrCall ==
        [] OTHER -> TRUE
   /\ UNCHANGED <<cur, st, refbad>>
 
+\* reader half of C05 (P = "C05reader", on the in-process generation traces): the hook event soap_binding shows which
+\* node the reader bound to each operation's body and header parts, before anything is written
+SoapOp(ops, nm) == ops[CHOOSE i \in 1..Len(ops) : ops[i].op = nm]
+HasSoapOp(ops, nm) == \E i \in 1..Len(ops) : ops[i].op = nm
+BoundViol(opn, dir, io, bound) ==
+     (IF bound.body.name = NameXml(io.body.n) /\ bound.body.ns = UriStr(io.body.ns) /\ bound.body.kind \in {"element_complex", "element_typed"} THEN {}
+      ELSE {V("reader_body_is_part_element", opn \o "/" \o dir, UriStr(io.body.ns) \o " " \o NameXml(io.body.n), bound.body.ns \o " " \o bound.body.name)})
+  \cup {V("reader_header_is_part_element", opn \o "/" \o dir \o "/" \o io.headers[i].part, NameXml(io.headers[i].el.n), "other") :
+          i \in {i \in 1..Len(io.headers) : ~\E j \in 1..Len(bound.headers) :
+                     bound.headers[j].part = io.headers[i].part /\ bound.headers[j].node.name = NameXml(io.headers[i].el.n)
+                     /\ bound.headers[j].node.ns = UriStr(io.headers[i].el.ns)}}
+TrSoapBinding ==
+  /\ IsEvent("soap_binding")
+  /\ IF P = "C05reader"
+     THEN /\ Report(UNION {IF ~HasSoapOp(ev.ops, cur.case.ops[i].n) THEN {V("reader_operation_bound", cur.case.ops[i].n, "bound", "missing")}
+                           ELSE BoundViol(cur.case.ops[i].n, "input", cur.case.ops[i].input, SoapOp(ev.ops, cur.case.ops[i].n).input)
+                                \cup (IF HasOutput(cur.case.ops[i]) /\ "body" \in DOMAIN SoapOp(ev.ops, cur.case.ops[i].n).output
+                                      THEN BoundViol(cur.case.ops[i].n, "output", cur.case.ops[i].output, SoapOp(ev.ops, cur.case.ops[i].n).output) ELSE {})
+                           : i \in 1..Len(cur.case.ops)})
+          /\ Count1
+     ELSE TRUE
+  /\ UNCHANGED <<cur, st, refbad>>
+
 \* a case whose file did not compile produces no observations: that is reported once for the run-time properties too
 TrDone == /\ IsEvent("done")
           /\ IF P \in {"C03", "C04", "C05", "C07", "C16", "C18"} /\ (st.gen # "ok" \/ st.comp # "ok" \/ st.drv # "ok")
@@ -186,9 +209,9 @@ TrDone == /\ IsEvent("done")
              ELSE TRUE
           /\ TLCSet(1, TLCGet(1) + 1)
           /\ UNCHANGED <<cur, st, refbad>>
-Handled == {"case", "generated", "compiled", "driver_compiled", "ser", "fix", "de", "de_ref", "fix_ref", "done", "env", "env_de", "env_check", "service", "call"}
+Handled == {"case", "generated", "compiled", "driver_compiled", "ser", "fix", "de", "de_ref", "fix_ref", "done", "env", "env_de", "env_check", "service", "call", "soap_binding"}
 TrOther == l <= Len(Rec) /\ ev.ev \notin Handled /\ l' = l + 1 /\ UNCHANGED <<cur, st, refbad>>
-TraceNext == TrCase \/ TrRef \/ TrEnv \/ TrEnvDe \/ TrEnvCheck \/ TrService \/ TrCall \/ TrGenerated \/ TrCompiled \/ TrDriver \/ TrSer \/ TrFix \/ TrDe \/ TrDone \/ TrOther
+TraceNext == TrCase \/ TrRef \/ TrSoapBinding \/ TrEnv \/ TrEnvDe \/ TrEnvCheck \/ TrService \/ TrCall \/ TrGenerated \/ TrCompiled \/ TrDriver \/ TrSer \/ TrFix \/ TrDe \/ TrDone \/ TrOther
 TraceSpec == TraceInit /\ [][TraceNext]_tvars
 Accepted == /\ PrintT(<<"TALLY", TLCGet(1), TLCGet(2), TLCGet(3)>>)
             /\ IF TLCGet("stats").diameter = Len(Rec) THEN TRUE
